@@ -138,8 +138,49 @@ def truth_time(zr, z):
     raise ValueError(z)
 
 
+def shared_levels(con, interval_type, grid):
+    """Independent lower bound on the size of a master curve: the number of grid levels lying strictly between the
+    lowest and highest water level of at least two intervals of the given type (from zeta_interval and water_level
+    only).  A master curve with fewer levels than that is missing something; with a coarse grid a curve of fewer
+    than two levels is legitimate and says nothing about C06."""
+    import math
+    ranges = []
+    for a, b in con.execute("SELECT start_epoch, thru_epoch FROM zeta_interval WHERE interval_type = ?", (interval_type,)).fetchall():
+        z = [r[0] for r in con.execute("SELECT zeta_mm FROM water_level WHERE epoch >= ? AND epoch <= ?", (a, b))]
+        if len(z) >= 2:
+            ranges.append((min(z), max(z)))
+    if not ranges:
+        return 0
+    lo = math.floor(min(r[0] for r in ranges) / grid)
+    hi = math.ceil(max(r[1] for r in ranges) / grid)
+    at = {k: [i for i, (a, b) in enumerate(ranges) if a < k * grid < b] for k in range(lo, hi + 1)}
+    at = {k: v for k, v in at.items() if len(v) >= 2}
+    # only the largest group of intervals connected through shared levels is kept (C08); with ties the choice is
+    # unspecified, so take the smallest level count among the groups with the most intervals
+    parent = list(range(len(ranges)))
+
+    def find(i):
+        while parent[i] != i:
+            parent[i] = parent[parent[i]]
+            i = parent[i]
+        return i
+    for v in at.values():
+        for i in v[1:]:
+            parent[find(i)] = find(v[0])
+    groups = {}
+    for k, v in at.items():
+        g = groups.setdefault(find(v[0]), [set(), 0])
+        g[0].update(v)
+        g[1] += 1
+    if not groups:
+        return 0
+    most = max(len(g[0]) for g in groups.values())
+    return min(g[1] for g in groups.values() if len(g[0]) == most)
+
+
 def run_C06(repo, tier, seed):
     ev = 0
+    uninformative = 0
     failures, samples = [], []
     cases = [(seed * 100 + k, g) for k in range(2 if tier == "quick" else 12) for g in ((1.0, 0.5) if tier == "quick" else (1.0, 0.5, 2.5))]
     for s, grid in cases:
@@ -152,8 +193,29 @@ def run_C06(repo, tier, seed):
             continue
         except Exception as e:
             tb = traceback.extract_tb(e.__traceback__)[-1]
-            failures.append({"key": "raised-" + type(e).__name__, "input": case, "observed": "%s: %s (%s:%d)" % (type(e).__name__, e, tb.name, tb.lineno)})
-            continue
+            what = "%s: %s (%s:%d)" % (type(e).__name__, e, tb.name, tb.lineno)
+            # a step may refuse when no grid level is shared by two of its intervals (nothing to assemble: C06 says
+            # nothing then); find the step that raised and ask the independent oracle
+            con = None
+            try:
+                pre = workflow(repo, data, grid, cli=True, steps=())
+                need = {"rise": shared_levels(pre, "storm", grid), "recession": shared_levels(pre, "interstorm", grid)}
+                ok_steps, added = [], False
+                for stp in ("rise", "recession"):
+                    try:
+                        workflow(repo, data, grid, cli=True, steps=(stp,))
+                        ok_steps.append(stp)
+                    except Exception:
+                        if need[stp] >= 1:
+                            failures.append({"key": "raised-" + type(e).__name__, "input": dict(case, step=stp), "observed": what})
+                            added = True
+                if len(ok_steps) < 2 and not added:
+                    uninformative += 1
+                    con = workflow(repo, data, grid, cli=True, steps=tuple(ok_steps))
+            except Exception as e2:
+                failures.append({"key": "raised-" + type(e).__name__, "input": case, "observed": what})
+            if con is None:
+                continue
         ev += 1
         rise, rec = curves(con)
         zr, sy = data["truth"]["zr"], data["truth"]["sy"]
@@ -163,15 +225,17 @@ def run_C06(repo, tier, seed):
             if max(d) - min(d) > 1e-6 * max(1.0, max(abs(x) for x in d)):
                 failures.append({"key": "recession-master-curve", "input": case,
                                  "observed": "elapsed time minus planted curve is not constant: spread %r steps" % (max(d) - min(d))})
-        else:
-            failures.append({"key": "no-recession-curve", "input": case, "observed": "fewer than two levels in the recession master curve"})
+        elif shared_levels(con, "interstorm", grid) >= 2:
+            failures.append({"key": "no-recession-curve", "input": case,
+                             "observed": "fewer than two levels in the recession master curve although at least two grid levels are shared within the main group of overlapping recession intervals"})
         if len(rise) >= 2:
             d = [w - sy * z for z, w in rise]
             if max(d) - min(d) > 1e-6 * max(1.0, max(abs(x) for x in d)):
                 failures.append({"key": "rise-master-curve", "input": case,
                                  "observed": "storage minus Sy*level is not constant: spread %r mm" % (max(d) - min(d))})
-        else:
-            failures.append({"key": "no-rise-curve", "input": case, "observed": "fewer than two levels in the rise master curve"})
+        elif shared_levels(con, "storm", grid) >= 2:
+            failures.append({"key": "no-rise-curve", "input": case,
+                             "observed": "fewer than two levels in the rise master curve although at least two grid levels are shared within the main group of overlapping storm rises"})
         # aligned pieces coincide wherever they overlap
         for tbl, col, off in (("recession_interval_zeta", "mean_crossing_time", "time_offset_s"), ("rising_interval_zeta", "mean_crossing_depth_mm", "rain_depth_offset_mm")):
             rows = con.execute("SELECT zeta_number, %s + %s FROM %s JOIN %s USING (start_epoch)" % (col, off, tbl, tbl.replace("_zeta", ""))).fetchall()
@@ -186,7 +250,8 @@ def run_C06(repo, tier, seed):
             samples.append(case)
         if len(failures) >= 3:
             break
-    return {"bound": "%d planted datasets (4 storm/recession events each) x grid steps, through the real CLI" % len(cases),
+    return {"bound": "%d planted datasets (4 storm/recession events each) x grid steps, through the real CLI (%d of them with a step refusing "
+                     "because no grid level is shared by two of its intervals)" % (len(cases), uninformative),
             "evaluations": ev, "distinct": len(cases), "exhaustive": False, "failures": failures[:3], "samples": samples}
 
 
